@@ -470,7 +470,7 @@ SHARED_KINDS = {
 def shared_config(seed, prop):
     rng = random.Random(seed ^ 0x3c3c3c3c)
     return {'seed': rng.randrange(1 << 31), 'p': rng.choice([0.0005, 0.002, 0.01]), 'hot': rng.choice([0.05, 0.15, 0.4, 1.0]), 'quantum': rng.choice([12, 100000, 100000]),
-            'cap': 48, 'op_cap': rng.choice([2, 4, 8]), 'nitems': rng.choice([2, 3, 5]), 'per_item': rng.choice([2, 3, 5]), 'nb': 120, 'kinds': SHARED_KINDS[prop]}
+            'cap': 48, 'op_cap': rng.choice([2, 4, 8]), 'burst': rng.choice([0, 0, 0, 70, 140]), 'nitems': rng.choice([2, 3, 5]), 'per_item': rng.choice([2, 3, 5]), 'nb': 120, 'kinds': SHARED_KINDS[prop]}
 
 
 def _valid_block(rng):
@@ -771,6 +771,19 @@ def _apply_safe(obj, it, op, salt):
         return ('exc', type(e).__name__)
 
 
+def _bulk(obj, it, n):
+    k = it['k']
+    signer = obj if k == 'key' else obj[1] if k in ('spend', 'message') else None
+    try:
+        for j in range(n):
+            if signer is not None:
+                signer.sign(hashlib.sha256(b'bulk%d' % j).digest())
+            else:
+                apply_op(obj, it, SHARED_OPS[k][j % len(SHARED_OPS[k])], 'bulk')
+    except Exception:            # noqa: BLE001 - unjudged
+        pass
+
+
 def run_shared(cfg):
     """Both threads on one pool of objects.  Returns (records, switches) where each record is
     (thread, item index, op, salt, result during, result alone on a fresh equal object)."""
@@ -813,6 +826,10 @@ def run_shared(cfg):
             salt = 'B%d' % nb[0]
             nb[0] += 1
             recB.append((i, op, salt, _apply_safe(pool[i], items[i], op, salt)))
+            if cfg.get('burst') and D.op_switches == 1:
+                # ... followed, once per operation of the first thread, by a burst of further unjudged operations: the first
+                # thread stays parked while many complete (a small ring of scratch slots wraps around)
+                _bulk(pool[i], items[i], cfg['burst'])
             # at most one complete operation per hand-over: back to the first thread, which is still parked
             # at the line where it was pre-empted
             if not D.a_done:
